@@ -12,6 +12,8 @@ def run(tier, seed):
     from ..propbase import deductive
     deductive(rep, "C06", ["markdown_it.rules_block.paragraph.paragraph", "markdown_it.rules_block.lheading.lheading", "markdown_it.rules_block.state_block.StateBlock.__init__"], "contracts.block")
     lines_universe(rep, "vf.oracles2:c06_container", tier, "MarkdownIt.parse", "quote form and list form of the law (tokens, maps, inline content, levels, references)", cfgs=["commonmark", "cm+table+strike"], wrapped=False)
+    lines_universe(rep, "vf.checks:container_contracts", tier, "blockquote, list_block (and the other block rules) at every real call, nested calls included", "requires and ensures of their contracts evaluated natively: tables and context restored, map, CONS at the stores, dispatch guard",
+                   cfgs=["commonmark"], rule="distinct token-stream signatures")
     lines_universe(rep, "vf.oracles2:c06_nested", tier, "MarkdownIt.parse", "the law applied to already wrapped documents (depth 2-3)", cfgs=["commonmark"], wrapped=False)
     rep.explanation = ("Mixed. Deductive (pyvc): the anchored mechanism of the quote form - rules_block.blockquote is verified on all paths: each quoted line's tables are moved past the marker and its optional blank with the physical-column "
                        "invariant re-established (CONS), blkIndent is 0 and the tables are well formed when the nested block loop is re-run on the same line range, the opening token's map is [startLine, line'], and all five "
